@@ -321,7 +321,7 @@ def run_direct(ctx, budget_s):
     nh = 0
     import time as _t
     end = _t.time() + budget_s          # wall-clock only bounds the amount of work, never a verdict
-    while _t.time() < end and nh < ctx.scale(400, 40000):
+    while (_t.time() < end or nh < (15 if ctx.quick else 100)) and nh < ctx.scale(400, 40000):
         nh += 1
         hist = gen_history(rng)
         v = rng.choice([3, 4, 4])
@@ -586,7 +586,9 @@ def run_session(ctx, budget_s):
     import time as _t
     # wall-clock only bounds the amount of work (never a verdict); keep a minimum of work when start-up on a busy box ate the budget
     t_end = _t.time() + max(15 if ctx.quick else 120, ctx.time_left(budget_s))
-    while _t.time() < t_end and nh < ctx.scale(60, 6000):
+    n_min = 40 if ctx.quick else 400          # cases per worker, whatever the box is doing: the floors must never depend on the load
+    done = [0]
+    while (_t.time() < t_end or done[0] < n_min) and nh < ctx.scale(60, 6000):
         nh += 1
         acts = gen_session_history(rng)
         nodes = rng.choice([1, 2, 2])
@@ -595,7 +597,7 @@ def run_session(ctx, budget_s):
         hseed = base + nh * 101
         for kind in SESSION_KINDS:
             for pos in range(len(acts) + 1):
-                if _t.time() > t_end:
+                if _t.time() > t_end and done[0] >= n_min:
                     break
                 seed = hseed + pos
                 gc.collect()            # garbage of earlier worlds must not be finalised inside this one (reproducibility from the seed)
@@ -616,6 +618,7 @@ def run_session(ctx, budget_s):
                     continue
                 ctx.case(repr(('B', kind, pos, sig)), nontrivial=info.get('outstanding_before', 0) > 0)
                 ctx.count("session_cases")
+                done[0] += 1
                 ctx.count("session_failures_" + kind)
                 ctx.count("session_handlers_counted", info.get('handlers', 0))
                 ctx.count("session_handlers_errored_by_failure", info.get('errored_handlers', 0))
@@ -754,7 +757,7 @@ def run(ctx):
     if ctx.worker in (None, 0):
         run_line_preemption(ctx)
     run_direct(ctx, 8 if ctx.quick else 90)
-    run_session(ctx, 42 if ctx.quick else 420)
+    run_session(ctx, 38 if ctx.quick else 400)
     # floors are far below what an idle machine reaches (the box is shared): they only guarantee that every monitor was reached
     ctx.floor_distinct = 1000 if ctx.quick else 20000
     ctx.floor_counters = {"direct_cases": 1000, "direct_outstanding_handlers_at_failure": 1500, "direct_live_paging_sessions_at_failure": 150,
